@@ -32,11 +32,12 @@ type PointAssert struct {
 }
 
 type ModTarget struct {
-	Text string
-	E    *Expr
-	Elts bool // x[*]: the elements of slice x
-	All  bool
-	Key  string // raw heap key (e.g. for ghost vars)
+	Text   string
+	E      *Expr
+	Elts   bool // x[*]: the elements of slice x
+	All    bool
+	Except []string // with All: heap key prefixes that are left untouched
+	Key    string   // raw heap key (e.g. for ghost vars)
 }
 
 type FuncContract struct {
@@ -51,6 +52,7 @@ type FuncContract struct {
 	Asserts  []PointAssert
 	Trusted  bool
 	Inline   bool
+	Reveal   map[string]bool // opaque spec functions unfolded while verifying this function
 	NoPanic  bool // claim: no reachable panic instruction / bounds failure
 	Safety   bool // generate bounds/nil/div obligations
 	File     string
@@ -70,6 +72,9 @@ type SpecFunc struct {
 	Ret    string
 	Body   *Expr
 	Text   string
+	Opaque bool     // used as an uninterpreted function of its arguments and heap footprint unless revealed
+	foot   []string // heap keys the body reads (computed on demand)
+	footOK bool
 }
 
 type Axiom struct {
@@ -78,8 +83,10 @@ type Axiom struct {
 	E     *Expr
 	Text  string
 	Lemma bool
+	Inv   bool // global state invariant (established by package initialisation, stability checked)
 	Props []string
 	Uses  []string // axioms / lemmas to assume when proving this lemma
+	Reveal []string
 	File  string
 	Line  int
 }
@@ -95,6 +102,7 @@ type ContractSet struct {
 	Specs  map[string]*SpecFunc
 	Axioms map[string]*Axiom
 	Ghosts map[string]*GhostVar
+	Invs   []*Axiom
 	Order  []string // function keys in file order
 	AxOrd  []string
 	Files  []string
@@ -106,7 +114,7 @@ func newContractSet() *ContractSet {
 	return &ContractSet{Funcs: map[string]*FuncContract{}, Specs: map[string]*SpecFunc{}, Axioms: map[string]*Axiom{}, Ghosts: map[string]*GhostVar{}}
 }
 
-var keywordRe = regexp.MustCompile(`^(func|property|requires|ensures|modifies|loop|assert|trusted|inline|nopanic|safety|spec|axiom|lemma|ghost|use|package)\b`)
+var keywordRe = regexp.MustCompile(`^(func|property|requires|ensures|modifies|loop|assert|trusted|inline|nopanic|safety|spec|axiom|lemma|invariant|ghost|use|reveal|package)\b`)
 var labelRe = regexp.MustCompile(`^\[([A-Za-z0-9_.<>=%+\-]+)\]\s*(.*)$`)
 
 func canonFuncName(pkg, decl string) string {
@@ -303,11 +311,11 @@ func (cs *ContractSet) parseFile(path string, defaultPkg string) error {
 			cur.Safety = true
 		case "spec":
 			// spec func name(a T, b U) R [= expr]
-			m := regexp.MustCompile(`^(func|def)\s+([A-Za-z_][A-Za-z0-9_]*)\s*\(([^)]*)\)\s*([^=]*?)\s*(?:=\s*(.*))?$`).FindStringSubmatch(it.text)
+			m := regexp.MustCompile(`^(func|def|opaque)\s+([A-Za-z_][A-Za-z0-9_]*)\s*\(([^)]*)\)\s*([^=]*?)\s*(?:=\s*(.*))?$`).FindStringSubmatch(it.text)
 			if m == nil {
 				return fmt.Errorf("%s:%d: bad spec declaration: %s", path, it.line, it.text)
 			}
-			sf := &SpecFunc{Pkg: pkg, Name: m[2], Ret: strings.TrimSpace(m[4]), Text: it.text}
+			sf := &SpecFunc{Pkg: pkg, Name: m[2], Ret: strings.TrimSpace(m[4]), Text: it.text, Opaque: m[1] == "opaque"}
 			if strings.TrimSpace(m[3]) != "" {
 				for _, p := range strings.Split(m[3], ",") {
 					f := strings.Fields(strings.TrimSpace(p))
@@ -329,7 +337,7 @@ func (cs *ContractSet) parseFile(path string, defaultPkg string) error {
 			}
 			cs.Specs[sf.Name] = sf
 			cur, curAx = nil, nil
-		case "axiom", "lemma":
+		case "axiom", "lemma", "invariant":
 			i := strings.Index(it.text, ":")
 			if i < 0 {
 				return fmt.Errorf("%s:%d: %s name: expr", path, it.line, it.kw)
@@ -343,12 +351,33 @@ func (cs *ContractSet) parseFile(path string, defaultPkg string) error {
 			if _, dup := cs.Axioms[name]; dup {
 				return fmt.Errorf("%s:%d: duplicate axiom/lemma %s", path, it.line, name)
 			}
+			if it.kw == "invariant" {
+				ax.Inv = true
+				cs.Invs = append(cs.Invs, ax)
+				cs.TrustedList = append(cs.TrustedList, "invariant "+name+" (established by package initialisation): "+ax.Text)
+				curAx, cur = nil, nil
+				continue
+			}
 			cs.Axioms[name] = ax
 			cs.AxOrd = append(cs.AxOrd, name)
 			curAx = ax
 			cur = nil
 			if !ax.Lemma {
 				cs.TrustedList = append(cs.TrustedList, "axiom "+name+": "+ax.Text)
+			}
+		case "reveal":
+			names := strings.Fields(strings.ReplaceAll(it.text, ",", " "))
+			if cur != nil {
+				if cur.Reveal == nil {
+					cur.Reveal = map[string]bool{}
+				}
+				for _, n := range names {
+					cur.Reveal[n] = true
+				}
+			} else if curAx != nil {
+				curAx.Reveal = append(curAx.Reveal, names...)
+			} else {
+				return fmt.Errorf("%s:%d: reveal outside func/lemma", path, it.line)
 			}
 		case "use":
 			if curAx == nil {
@@ -374,6 +403,8 @@ func parseModTargets(text string) ([]ModTarget, error) {
 		case part == "nothing" || part == "":
 		case part == "*":
 			out = append(out, ModTarget{Text: part, All: true})
+		case strings.HasPrefix(part, "* except "):
+			out = append(out, ModTarget{Text: part, All: true, Except: strings.Fields(strings.TrimPrefix(part, "* except "))})
 		case strings.HasPrefix(part, "key:"):
 			out = append(out, ModTarget{Text: part, Key: strings.TrimPrefix(part, "key:")})
 		default:
